@@ -308,7 +308,18 @@ func c15Profiles(tier Tier) []*explore.Profile {
 			return acts
 		},
 	}
-	return []*explore.Profile{p, highNonceProfile("high-nonce", tier, []explore.Oracle{&wellformedOracle{property: "C15"}}, 2)}
+	// every function of the library (account-level functions, SaveKeyValue shapes, impostor calls,
+	// argument-tail variants) in a shallower search
+	all := &explore.Profile{
+		Name: "all-functions", EnvCfg: ledgerEnv(2), Depth: 2, Deadline: tierDeadline(tier), WithGhost: true,
+		Seeds:   seedsOf("mixed", "frozen", "handover"),
+		Oracles: []explore.Oracle{&wellformedOracle{property: "C15"}},
+		Menu:    func(w *world.World) []world.Action { return wholeMenu(w, o) },
+	}
+	if tier.Thorough() {
+		all.Depth = 3
+	}
+	return []*explore.Profile{p, all, highNonceProfile("high-nonce", tier, []explore.Oracle{&wellformedOracle{property: "C15"}}, 2)}
 }
 
 func init() { LedgerProfiles["C15"] = c15Profiles }
